@@ -156,3 +156,29 @@ Theorem honest_type3 : forall hpke_open cfg_prefix issuer_key_id parse_pk sig_ve
     = Ok {| t_type := ty; t_nonce := nonce; t_ctx := ctx; t_keyid := keyid; t_auth := sg |}.
 Proof. exact honest_type3_l. Qed.
 Print Assumptions honest_type3.
+
+(** ... and the request need not be assumed well formed: the one the CLIENT model assembles (tokens/type3/client.go:
+    associated data, inner request with the padded name, HPKE sealing, name key id = SHA-256 of the serialized name
+    key, signature over type || request key || name key id || u16-prefixed ciphertext) is served by the issuer model
+    configured with the same name key — given HPKE correctness and the signature scheme's correctness as laws of the
+    primitives.  The two sites build the same associated data and the same signed message. *)
+Theorem client_request_served : forall hpke_seal hpke_open sign parse_pk sig_verify registered sign_and_seal aead_open rsa_finalize pss_ok,
+  (forall rnd ad pt, let '(enc, ct, secret) := hpke_seal rnd ad pt in
+                     length enc = 32%nat /\ hpke_open enc ad ct = Some (pt, secret)) ->
+  (forall rk msg, parse_pk rk = true -> sig_verify rk msg (sign msg) = true) ->
+  (forall msg, length (sign msg) = 96%nat) ->
+  forall nk rk keyid0 bm name rnd rnonce ct brk bs sg ty nonce ctx keyid,
+  length rk = 49%nat -> parse_pk rk = true ->
+  ends_nonzero name -> registered name = true -> fits16 (pad name) = true -> keyid0 < 256 -> length bm = 256%nat ->
+  let '(r, secret) := client_request3 hpke_seal sign nk rk keyid0 bm name rnd in
+  fits16 (q3_enc r) = true ->
+  sign_and_seal r (inner_for keyid0 bm name) secret = Some (rnonce ++ ct, brk) -> length rnonce = 16%nat ->
+  aead_open (firstn 32 (q3_enc r) ++ rnonce) ct = Some bs ->
+  rsa_finalize bs = Some sg -> length sg = 256%nat ->
+  ty < 65536 -> length nonce = 32%nat -> length ctx = 32%nat -> length keyid = 32%nat ->
+  pss_ok (tok_input ty nonce ctx keyid) sg = true ->
+  run3 hpke_open (issuer_cfg nk) (name_key_id nk) parse_pk sig_verify registered sign_and_seal aead_open rsa_finalize pss_ok
+       r (tok_input ty nonce ctx keyid)
+    = Ok {| t_type := ty; t_nonce := nonce; t_ctx := ctx; t_keyid := keyid; t_auth := sg |}.
+Proof. exact client_request_served_l. Qed.
+Print Assumptions client_request_served.
